@@ -658,6 +658,29 @@ var rMarkLayers = &Rule{
 				}
 			}
 		})
+		// every layer contributes: in getMark's chain loop every way around the loop passes through the GetTypeMark call
+		// (no `continue` that skips a particular kind of layer)
+		for _, l := range naturalLoops(gm) {
+			var inLoop *ssa.Call
+			for b := range l.Body {
+				for _, in := range b.Instrs {
+					if call, ok := in.(*ssa.Call); ok && sx.Callee(call) == gtm {
+						inLoop = call
+					}
+				}
+			}
+			if inLoop == nil {
+				continue
+			}
+			skipped := false
+			for _, pred := range l.Header.Preds {
+				if l.Body[pred] && !inLoop.Block().Dominates(pred) {
+					skipped = true
+				}
+			}
+			c.Check(!skipped, "markers.getMark: every layer of the chain contributes its type mark", inLoop.Pos(), "the GetTypeMark call lies on every way around the chain loop",
+				"getMark skips some layers of the chain (an iteration can go on without calling GetTypeMark): chains that differ in exactly those layers get the same mark, so a difference in chain length or in a type of the chain no longer makes two errors different")
+		}
 		// in Is / IsAny, inside the chain loops, getMark is applied to the loop variable
 		for _, name := range []string{"Is", "IsAny"} {
 			fn := p.Func("markers", name)
